@@ -1,91 +1,181 @@
-(* Corollaries that combine the pieces, refutation witnesses and non-vacuity examples for C14. *)
+(* Corollaries that combine the pieces, witnesses and non-vacuity examples for C14. *)
 From AV Require Import Lib.Base Lib.Utf8 Generated.DispatchGen Model.Dispatch
   Proofs.DispatchStrings Proofs.DispatchRule Proofs.DispatchIndex Proofs.DispatchStatus
   Proofs.DispatchTemplate Proofs.DispatchRedirect.
 Open Scope N_scope.
 
 Theorem built_dispatch_follows_rule ops rt host p m :
-  build_app ops = BOk rt -> starts_with [SLASH] p = true ->
+  Forall op_clean ops -> build_app ops = BOk rt ->
+  starts_with [SLASH] p = true -> path_safe_dec p = p ->
   resolve_ix rt host p m = resolve_rule rt host p m.
-Proof. intros Hb Hp. apply index_eq_rule; [eapply build_app_ok; eassumption|assumption]. Qed.
+Proof. intros Hc Hb Hp Hd. apply index_eq_rule; [eapply build_app_ok; eassumption|assumption|assumption]. Qed.
 
-(* ---- 404 / 405 for the code model (index walk), tables without sub-applications *)
+(* ---- construction keeps tables well formed (every leaf has a route, statics list GET/HEAD) *)
 
-Theorem ix_404 rt host p m : router_ok rt -> flat rt -> starts_with [SLASH] p = true ->
-  (resolve_ix rt host p m = NotFound <-> forall r, In r (r_res rt) -> path_matches r p = false).
-Proof. intros Hok Hf Hp. rewrite (index_eq_rule rt host p m Hok Hp). apply rule_404. assumption. Qed.
-
-Theorem ix_405 rt host p m A : router_ok rt -> flat rt -> static_no_any rt -> starts_with [SLASH] p = true ->
-  resolve_ix rt host p m = NotAllowed A ->
-  (exists r, In r (r_res rt) /\ path_matches r p = true) /\
-  (forall r, In r (r_res rt) -> path_matches r p = true -> serves r m = false) /\
-  (forall x, In x A <-> exists r, In r (r_res rt) /\ path_matches r p = true /\ In x (methods r)) /\
-  (forall m', (exists h mi, resolve_ix rt host p m' = Found h mi) <-> In m' A).
+Lemma reindex_loop_Forall2 f : forall l i ix rs' ix',
+  reindex_loop f l i ix = BOk (rs', ix') -> Forall2 (fun r r' => f r = BOk r') l rs'.
 Proof.
-  intros Hok Hf Hst Hp. rewrite (index_eq_rule rt host p m Hok Hp). intros H.
-  destruct (rule_405 rt host p m A Hf H) as (H1 & H2 & H3). repeat split; try assumption; try apply H3.
-  - intros (h & mi & E). rewrite (index_eq_rule rt host p m' Hok Hp) in E.
-    apply (rule_405_complete rt host p m A Hf Hst H m'). eauto.
-  - intros Hin. rewrite (index_eq_rule rt host p m' Hok Hp).
-    apply (rule_405_complete rt host p m A Hf Hst H m'). assumption.
+  induction l as [|r l IH]; intros i ix rs' ix' H; cbn [reindex_loop] in H.
+  - inversion H. constructor.
+  - destruct (if is_dom r then BOk ix else idx_remove (index_key r) i ix) as [ix1|e]; [|discriminate].
+    destruct (f r) as [r'|e] eqn:Hf; [|discriminate].
+    destruct (reindex_loop f l (S i) (if is_dom r then ix1 else idx_append (index_key r') i ix1)) as [[l'' ix2]|e] eqn:Hl; [|discriminate].
+    inversion H; subst. constructor; [exact Hf|eapply IH; exact Hl].
 Qed.
 
-(* tables built from add_route / add_static only are flat *)
-Definition leaf_op (o : op) : Prop := match o with ORoute _ _ _ | OStatic _ _ => True | _ => False end.
+Lemma add_prefix_wf pfx : forall r r', wf_res r -> add_prefix pfx r = BOk r' -> wf_res r'.
+Proof.
+  induction r using resource_ind'; intros r' Hwf Hadd; cbn [add_prefix] in Hadd.
+  - inversion Hwf; subst. inversion Hadd. constructor. assumption.
+  - inversion Hwf; subst. inversion Hadd. constructor. assumption.
+  - inversion Hwf; subst. inversion Hadd. constructor; assumption.
+  - inversion Hwf as [| | |? ? ? Hrs|]; subst.
+    destruct (reindex_loop (add_prefix pfx) rs 0%nat ix) as [[rs' ix']|e] eqn:Hl; [|discriminate].
+    inversion Hadd; subst r'. constructor.
+    eapply Forall2_Forall_r; [exact (reindex_loop_Forall2 _ _ _ _ _ _ Hl)| |exact Hrs].
+    rewrite Forall_forall in *. intros a Ha b Hab Hpa. apply (H a Ha b Hpa Hab).
+  - inversion Hwf as [| | | |? ? ? Hrs]; subst.
+    destruct (reindex_loop (add_prefix pfx) rs 0%nat ix) as [[rs' ix']|e] eqn:Hl; [|discriminate].
+    inversion Hadd; subst r'. constructor.
+    eapply Forall2_Forall_r; [exact (reindex_loop_Forall2 _ _ _ _ _ _ Hl)| |exact Hrs].
+    rewrite Forall_forall in *. intros a Ha b Hab Hpa. apply (H a Ha b Hpa Hab).
+Qed.
 
-Definition leafy (r : resource) : Prop :=
-  leaf r /\ match r with RStatic _ rts => ~ In ANY (map fst rts) | _ => True end.
+Lemma freeze_wf rt : wf_router rt -> wf_router (freeze rt).
+Proof.
+  unfold wf_router, freeze. cbn [r_res]. intros H. apply Forall_forall. intros r Hr. apply in_map_iff in Hr.
+  destruct Hr as (x & <- & Hx). rewrite Forall_forall in H. specialize (H x Hx).
+  destruct x as [[|c p] rts|o f pat rts|p rts|p rs ix|d rs ix]; try exact H. inversion H; subst. constructor. assumption.
+Qed.
 
-Lemma leafy_add_route m h r r' : add_route_to m h r = BOk r' -> leafy r'.
+Lemma add_route_wf m h r r' : add_route_to m h r = BOk r' -> wf_res r'.
 Proof.
   destruct r as [p rt|o f pat rt|p rt|p rs ix|d rs ix]; cbn [add_route_to]; intros H; try discriminate;
-    destruct (route_lookup m rt); inversion H; (split; [|exact I]); cbn [leaf]; destruct rt; discriminate.
+    destruct (route_lookup m rt); inversion H; constructor; destruct rt; discriminate.
 Qed.
 
-Lemma op_leafy o rt rt' : leaf_op o -> Forall leafy (r_res rt) -> build_op o rt = BOk rt' -> Forall leafy (r_res rt').
+Lemma register_wf r rt : wf_router rt -> wf_res r -> wf_router (register r rt).
+Proof. unfold wf_router, register. cbn [r_res]. intros H Hr. apply Forall_app. split; [assumption|constructor; [assumption|constructor]]. Qed.
+
+Lemma op_route_wf m path h rt rt' : wf_router rt -> op_route m path h rt = BOk rt' -> wf_router rt'.
 Proof.
-  destruct o as [m path h|prefix h|prefix ops|d ops]; intros Ho Hall Hb; try contradiction; cbn [build_op] in Hb.
-  - unfold op_route in Hb. destruct (negb (is_nil path) && negb (starts_with [SLASH] path)); [discriminate|].
-    assert (Hnew : forall r r', add_route_to m h r = BOk r' -> Forall leafy (r_res (register r' rt))).
-    { intros r r' Ha. unfold register. cbn [r_res]. apply Forall_app. split; [assumption|].
-      constructor; [eapply leafy_add_route; eassumption|constructor]. }
-    destruct (rev (r_res rt)) as [|y t] eqn:Erev.
+  intros Hall Hb. unfold op_route in Hb. destruct (negb (is_nil path) && negb (starts_with [SLASH] path)); [discriminate|].
+  destruct (rev (r_res rt)) as [|y t] eqn:Erev.
+  - destruct (new_resource path) as [r|e]; [|discriminate].
+    destruct (add_route_to m h r) as [r'|e] eqn:Ea; [|discriminate]. inversion Hb; subst.
+    apply register_wf; [assumption|eapply add_route_wf; eassumption].
+  - destruct (raw_match y path).
+    + destruct (add_route_to m h y) as [r'|e] eqn:Ea; [|discriminate]. inversion Hb; subst. unfold wf_router in *. cbn [r_res].
+      rewrite (replace_last_spec _ y t r' Erev). destruct (rev_last_split _ _ _ Erev) as [Hl _].
+      rewrite Hl in Hall. apply Forall_app in Hall. destruct Hall as [H1 _]. apply Forall_app. split; [exact H1|].
+      constructor; [eapply add_route_wf; eassumption|constructor].
     + destruct (new_resource path) as [r|e]; [|discriminate].
-      destruct (add_route_to m h r) as [r'|e] eqn:Ea; [|discriminate]. inversion Hb; subst. eapply Hnew; eassumption.
-    + destruct (raw_match y path).
-      * destruct (add_route_to m h y) as [r'|e] eqn:Ea; [|discriminate]. inversion Hb; subst. cbn [r_res].
-        rewrite (replace_last_spec _ y t r' Erev). destruct (rev_last_split _ _ _ Erev) as [Hl _].
-        rewrite Hl in Hall. apply Forall_app in Hall. destruct Hall as [H1 _]. apply Forall_app. split; [exact H1|].
-        constructor; [eapply leafy_add_route; eassumption|constructor].
-      * destruct (new_resource path) as [r|e]; [|discriminate].
-        destruct (add_route_to m h r) as [r'|e] eqn:Ea; [|discriminate]. inversion Hb; subst. eapply Hnew; eassumption.
-  - unfold op_static in Hb. destruct (negb (starts_with [SLASH] prefix)); [discriminate|].
-    destruct (negb (prefix_resource_ok (strip_one_slash prefix))); [discriminate|].
-    destruct (requote_path (strip_one_slash prefix)); inversion Hb. unfold register. cbn [r_res].
-    apply Forall_app. split; [assumption|]. constructor; [|constructor]. split; [cbn [leaf]; discriminate|].
-    cbn [map fst]. intros [H|[H|[]]]; discriminate H.
+      destruct (add_route_to m h r) as [r'|e] eqn:Ea; [|discriminate]. inversion Hb; subst.
+      apply register_wf; [assumption|eapply add_route_wf; eassumption].
 Qed.
 
-Lemma fold_leafy ops : Forall leaf_op ops -> forall rt rt', Forall leafy (r_res rt) ->
-  fold_ops build_op ops rt = BOk rt' -> Forall leafy (r_res rt').
+Lemma op_static_wf prefix h rt rt' : wf_router rt -> op_static prefix h rt = BOk rt' -> wf_router rt'.
 Proof.
-  induction 1 as [|o ops Ho _ IH]; intros rt rt' Hall H; cbn [fold_ops] in H.
+  intros Hall Hb. unfold op_static in Hb. destruct (negb (starts_with [SLASH] prefix)); [discriminate|].
+  destruct (negb (prefix_resource_ok (strip_one_slash prefix))); [discriminate|].
+  destruct (requote_path (strip_one_slash prefix)); inversion Hb. apply register_wf; [assumption|].
+  constructor; [discriminate|]. cbn [map fst]. intros [H|[H|[]]]; discriminate H.
+Qed.
+
+Lemma op_subapp_wf prefix sub rt rt' : wf_router rt -> wf_router sub -> op_subapp prefix sub rt = BOk rt' -> wf_router rt'.
+Proof.
+  intros Hok Hsub H. unfold op_subapp in H.
+  destruct (is_nil (rstrip SLASH prefix)); [discriminate|].
+  destruct (negb (prefix_resource_ok (rstrip SLASH prefix))); [discriminate|].
+  destruct (requote_path (rstrip SLASH prefix)); [|discriminate].
+  destruct (reindex (rstrip SLASH prefix) sub) as [sub'|e] eqn:Er; [|discriminate].
+  inversion H; subst rt'. apply register_wf; [assumption|]. constructor.
+  apply (freeze_wf sub'). unfold reindex in Er.
+  destruct (reindex_loop (add_prefix (rstrip SLASH prefix)) (r_res sub) 0%nat (r_ix sub)) as [[rs' ix']|e] eqn:Hl; [|discriminate].
+  inversion Er; subst sub'. unfold wf_router. cbn [r_res].
+  eapply Forall2_Forall_r; [exact (reindex_loop_Forall2 _ _ _ _ _ _ Hl)| |exact Hsub].
+  apply Forall_forall. intros a _ b Hab Hpa. eapply add_prefix_wf; eassumption.
+Qed.
+
+Lemma op_domain_wf d sub rt rt' : wf_router rt -> wf_router sub -> op_domain d sub rt = BOk rt' -> wf_router rt'.
+Proof.
+  intros Hok Hsub H. unfold op_domain in H. inversion H; subst rt'. apply register_wf; [assumption|].
+  constructor. apply (freeze_wf sub Hsub).
+Qed.
+
+Lemma fold_ops_wf ops : Forall (fun o => forall rt rt', wf_router rt -> build_op o rt = BOk rt' -> wf_router rt') ops ->
+  forall rt rt', wf_router rt -> fold_ops build_op ops rt = BOk rt' -> wf_router rt'.
+Proof.
+  induction 1 as [|o ops Ho _ IH]; intros rt rt' Hok H; cbn [fold_ops] in H.
   - inversion H; subst. assumption.
-  - destruct (build_op o rt) as [rt1|e] eqn:E; [|discriminate]. eapply IH; [|exact H]. eapply op_leafy; eassumption.
+  - destruct (build_op o rt) as [rt1|e] eqn:E; [|discriminate]. eapply IH; [|exact H]. eapply Ho; eassumption.
 Qed.
 
-Theorem leaf_ops_flat ops rt : Forall leaf_op ops -> build_app ops = BOk rt -> flat rt /\ static_no_any rt.
+Lemma empty_wf : wf_router empty_router.
+Proof. constructor. Qed.
+
+Lemma build_op_wf : forall o rt rt', wf_router rt -> build_op o rt = BOk rt' -> wf_router rt'.
 Proof.
-  intros Hops Hb. unfold build_app in Hb.
-  destruct (fold_ops build_op ops empty_router) as [rt0|e] eqn:E; [|discriminate]. inversion Hb; subst rt.
-  assert (H0 : Forall leafy (r_res rt0)) by (eapply (fold_leafy ops Hops empty_router rt0); [constructor|exact E]).
-  assert (H1 : Forall leafy (r_res (freeze rt0))).
-  { unfold freeze. cbn [r_res]. apply Forall_forall. intros r Hr. apply in_map_iff in Hr.
-    destruct Hr as (x & <- & Hx). rewrite Forall_forall in H0. specialize (H0 x Hx).
-    destruct x as [[|c p] rts|o f pat rts|p rts|p rs ix|d rs ix]; exact H0. }
-  rewrite Forall_forall in H1. split.
-  - apply Forall_forall. intros r Hr. apply H1. exact Hr.
-  - intros q rts Hin. apply (H1 _ Hin).
+  induction o using op_ind'; intros rt rt' Hok Hb; cbn [build_op] in Hb.
+  - eapply op_route_wf; eassumption.
+  - eapply op_static_wf; eassumption.
+  - destruct (fold_ops build_op ops empty_router) as [sub|e] eqn:E; [|discriminate].
+    eapply op_subapp_wf; [exact Hok| |exact Hb]. eapply fold_ops_wf; [exact H|apply empty_wf|exact E].
+  - destruct (fold_ops build_op ops empty_router) as [sub|e] eqn:E; [|discriminate].
+    eapply op_domain_wf; [exact Hok| |exact Hb]. eapply fold_ops_wf; [exact H|apply empty_wf|exact E].
+Qed.
+
+Theorem build_app_wf ops rt : build_app ops = BOk rt -> wf_router rt.
+Proof.
+  unfold build_app. intros H. destruct (fold_ops build_op ops empty_router) as [rt0|e] eqn:E; [|discriminate].
+  inversion H; subst rt. apply freeze_wf. eapply fold_ops_wf; [|apply empty_wf|exact E].
+  apply Forall_forall. intros o _. apply build_op_wf.
+Qed.
+
+(* ---- 404 / 405 for the code model (index walk), through any nesting of sub-applications *)
+
+Theorem ix_sweep rt host p : router_ok rt -> wf_router rt ->
+  starts_with [SLASH] p = true -> path_safe_dec p = p ->
+  sweep_ok (fun m => resolve_ix rt host p m).
+Proof.
+  intros Hok Hwf Hp Hd. destruct (rule_sweep rt host p Hwf) as [S1 S2]. split.
+  - intros m Hm m'. rewrite (index_eq_rule rt host p m' Hok Hp Hd). rewrite (index_eq_rule rt host p m Hok Hp Hd) in Hm. eauto.
+  - intros m A Hm m'. rewrite (index_eq_rule rt host p m' Hok Hp Hd). rewrite (index_eq_rule rt host p m Hok Hp Hd) in Hm. eauto.
+Qed.
+
+Theorem built_sweep ops rt host p : Forall op_clean ops -> build_app ops = BOk rt ->
+  starts_with [SLASH] p = true -> path_safe_dec p = p ->
+  sweep_ok (fun m => resolve_ix rt host p m).
+Proof.
+  intros Hc Hb Hp Hd. apply ix_sweep; [eapply build_app_ok; eassumption|eapply build_app_wf; eassumption|assumption|assumption].
+Qed.
+
+(* ---- every literal that parse_template produces is matched in the path_safe form of its formatter text *)
+
+Definition lit_decoded (it : item) : Prop :=
+  match it with Lit f mt => mt = path_safe_dec f | Hole _ _ _ => True end.
+
+Lemma parse_aux_decoded f : forall lit s its, parse_aux f lit s = Some its -> Forall lit_decoded its.
+Proof.
+  induction f as [|f IH]; intros lit s its H; [discriminate|]. cbn [parse_aux] in H.
+  destruct s as [|c s'].
+  - destruct (lit_item_shape lit its H) as [->|[q ->]]; repeat constructor.
+  - destruct (c =? 125); [discriminate|]. destruct (c =? 123).
+    + destruct (take_until_close s') as [[body rest]|]; [|discriminate].
+      destruct (lit_item lit) as [l|] eqn:El; [|discriminate].
+      destruct (parse_hole body) as [h|] eqn:Eh; [|discriminate].
+      destruct (parse_aux f [] rest) as [its'|] eqn:Ep; [|discriminate]. inversion H; subst its.
+      destruct (parse_hole_is_hole body h Eh) as (n & cl & mn & ->).
+      apply Forall_app. split.
+      * destruct (lit_item_shape lit l El) as [->|[q ->]]; repeat constructor.
+      * constructor; [exact I|eapply IH; exact Ep].
+    + eapply IH. exact H.
+Qed.
+
+Theorem parse_literals_decoded path its : parse_template path = Some its -> Forall lit_decoded its.
+Proof.
+  unfold parse_template. destruct (parse_aux (S (length path)) [] path) as [its0|] eqn:Ep; [|discriminate].
+  destruct (nodup_str (hole_names its0)); intros H; inversion H; subst. eapply parse_aux_decoded. exact Ep.
 Qed.
 
 (* ---- strings used by witnesses and examples *)
@@ -98,35 +188,71 @@ Definition s_s : str := [47; 115].                      (* /s *)
 Definition s_x : str := [47; 120].                      (* /x *)
 Definition s_sy : str := [47; 115; 47; 121].            (* /s/y *)
 
+
+(* ---- the former refutation witnesses, now answered as the property demands *)
+
 (* parent: GET /s/x ; sub-application at /s: POST /x *)
 Definition capture_ops : list op :=
   [ORoute s_GET s_sx 1; OSub s_s [ORoute s_POST s_x 2]].
 
-(* 405 for DELETE /s/x lists POST only, although GET /s/x is served *)
-Theorem allow_incomplete_witness :
-  exists rt A h mi, build_app capture_ops = BOk rt /\
-    resolve_ix rt None s_sx s_DELETE = NotAllowed A /\
-    resolve_ix rt None s_sx s_GET = Found h mi /\ ~ In s_GET A.
+Example allow_complete_example :
+  exists rt, build_app capture_ops = BOk rt /\
+    resolve_ix rt None s_sx s_DELETE = NotAllowed [s_GET; s_POST] /\
+    resolve_ix rt None s_sx s_GET = Found 1 [] /\ resolve_ix rt None s_sx s_POST = Found 2 [].
 Proof.
   destruct (build_app capture_ops) as [rt|e] eqn:E; [|vm_compute in E; discriminate].
-  exists rt, [s_POST], 1, []. split; [reflexivity|].
-  vm_compute in E. inversion E; subst rt. clear E.
-  split; [vm_compute; reflexivity|]. split; [vm_compute; reflexivity|].
-  intros [H|[]]. discriminate H.
+  exists rt. split; [reflexivity|]. vm_compute in E. inversion E; subst rt. clear E.
+  repeat split; vm_compute; reflexivity.
 Qed.
 
-(* static /s registered before the sub-application at /s: POST /s/y -> 404 although GET /s/y is served *)
+(* static /s registered before the sub-application at /s *)
 Definition capture404_ops : list op := [OStatic s_s 1; OSub s_s [ORoute s_GET s_x 2]].
+Definition s_HEAD : str := [72; 69; 65; 68].
 
-Theorem notfound_although_matched_witness :
-  exists rt h mi, build_app capture404_ops = BOk rt /\
-    resolve_ix rt None s_sy s_POST = NotFound /\ resolve_ix rt None s_sy s_GET = Found h mi.
+Example static_before_subapp_example :
+  exists rt, build_app capture404_ops = BOk rt /\
+    resolve_ix rt None s_sy s_POST = NotAllowed [s_GET; s_HEAD] /\
+    resolve_ix rt None s_sy s_GET = Found 1 [(FILENAME, [121])].
 Proof.
   destruct (build_app capture404_ops) as [rt|e] eqn:E; [|vm_compute in E; discriminate].
-  exists rt, 1, [(FILENAME, [121])]. split; [reflexivity|].
-  vm_compute in E. inversion E; subst rt. clear E.
+  exists rt. split; [reflexivity|]. vm_compute in E. inversion E; subst rt. clear E.
   split; vm_compute; reflexivity.
 Qed.
+
+(* /a b/{x} : formatter /a%20b/{x}, pattern literal "/a b/"; the URL /a%20b/1 reaches the router as
+   its path_safe "/a b/1" and resolves back to x = 1 *)
+Definition t_ab_x : str := [47; 97; 32; 98; 47; 123; 120; 125].
+Definition u_ab_1 : str := [47; 97; 37; 50; 48; 98; 47; 49].           (* /a%20b/1 *)
+Definition ps_ab_1 : str := [47; 97; 32; 98; 47; 49].                   (* /a b/1 *)
+
+Example requoted_roundtrip_example :
+  exists pat, parse_template t_ab_x = Some pat /\ format_items pat [([120], [49])] = Some u_ab_1 /\
+    path_safe_dec u_ab_1 = ps_ab_1 /\
+    option_map unquote_dict (match_items pat ps_ab_1) = Some [([120], [49])] /\
+    index_key_of (formatter_of pat) = [47; 97; 32; 98].
+Proof.
+  exists [Lit [47; 97; 37; 50; 48; 98; 47] [47; 97; 32; 98; 47]; Hole [120] CGood 1%nat].
+  repeat split; vm_compute; reflexivity.
+Qed.
+
+(* an application with an add_domain sub-application can be mounted under a prefix *)
+Definition s_p : str := [47; 112].
+Definition s_z : str := [47; 122].
+Definition s_pz : str := [47; 112; 47; 122].
+Definition s_host : str := [101; 120; 46; 99; 111; 109].                (* ex.com *)
+Definition nested_domain_ops : list op := [OSub s_p [ODom s_host [ORoute s_GET s_z 1]]].
+
+Example nested_domain_example :
+  exists rt, build_app nested_domain_ops = BOk rt /\
+    resolve_ix rt (Some s_host) s_pz s_GET = Found 1 [] /\ resolve_ix rt None s_pz s_GET = NotFound.
+Proof.
+  destruct (build_app nested_domain_ops) as [rt|e] eqn:E; [|vm_compute in E; discriminate].
+  exists rt. split; [reflexivity|]. vm_compute in E. inversion E; subst rt. clear E.
+  split; vm_compute; reflexivity.
+Qed.
+
+Example ex_ops_clean : Forall op_clean capture_ops /\ Forall op_clean nested_domain_ops.
+Proof. split; repeat constructor. Qed.
 
 (* /{a}-{b} : values free of '/', '{', '}' that do not come back *)
 Definition t_a_b : str := [47; 123; 97; 125; 45; 123; 98; 125].
@@ -136,23 +262,9 @@ Theorem url_for_ambiguous_witness :
   exists pat u d, parse_template t_a_b = Some pat /\ format_items pat vals_ab = Some u /\
     memN PCT u = false /\ match_items pat u = Some d /\ unquote_dict d <> vals_ab.
 Proof.
-  exists [Lit [47]; Hole [97] CGood 1%nat; Lit [45]; Hole [98] CGood 1%nat],
+  exists [Lit [47] [47]; Hole [97] CGood 1%nat; Lit [45] [45]; Hole [98] CGood 1%nat],
          [47; 120; 45; 121; 45; 122], [([97], [120; 45; 121]); ([98], [122])].
   repeat split; try (vm_compute; reflexivity). vm_compute. discriminate.
-Qed.
-
-(* /a b/{x} : the literal is stored as /a%20b ; the produced URL /a%20b/1 reaches the router as the
-   decoded path_safe "/a b/1", which the stored pattern does not match *)
-Definition t_ab_x : str := [47; 97; 32; 98; 47; 123; 120; 125].
-Definition u_ab_1 : str := [47; 97; 37; 50; 48; 98; 47; 49].           (* /a%20b/1 *)
-Definition ps_ab_1 : str := [47; 97; 32; 98; 47; 49].                   (* /a b/1 = yarl path_safe of it *)
-
-Theorem url_for_requoted_witness :
-  exists pat, parse_template t_ab_x = Some pat /\ format_items pat [([120], [49])] = Some u_ab_1 /\
-    match_items pat ps_ab_1 = None.
-Proof.
-  exists [Lit [47; 97; 37; 50; 48; 98; 47]; Hole [120] CGood 1%nat].
-  repeat split; vm_compute; reflexivity.
 Qed.
 
 (* ---- non-vacuity *)
@@ -173,11 +285,14 @@ Proof.
   repeat split; vm_compute; reflexivity.
 Qed.
 
-Example ex_flat_ops : Forall leaf_op [ORoute s_GET [47; 97; 47; 98] 1; OStatic s_s 2].
+Example ex_ops_ex_clean : Forall op_clean ex_ops.
 Proof. repeat constructor. Qed.
 
+Example ex_path_is_path_safe : path_safe_dec [47; 115; 47; 115; 47; 113] = [47; 115; 47; 115; 47; 113].
+Proof. vm_compute. reflexivity. Qed.
+
 Example ex_good_for :
-  let pat := [Lit [47; 97; 47]; Hole [120] CGood 1%nat; Lit [47; 98]; Hole [121] CDigit 1%nat] in
+  let pat := [Lit [47; 97; 47] [47; 97; 47]; Hole [120] CGood 1%nat; Lit [47; 98] [47; 98]; Hole [121] CDigit 1%nat] in
   let vals := [([120], [113; 45; 113]); ([121], [52; 50])] in
   good_for pat vals /\ plain_values pat vals /\ lits_no_pct pat.
 Proof.
